@@ -4,6 +4,7 @@
 // ORACLE TABLE: name -> payload signature, builder reply_on, payload JSON for digits x, y
 //   one   always   (x: u8)          Always    `x`        e.g. 5      (single value: not a tuple)
 //   two   success  (x: u8, y: u8)   Success   `[x,y]`    e.g. [5,6]
+//   nm    error    (id: u8, reply_on: u8)  Error  `[id,reply_on]`   (parameter names equal to SubMsg field names)
 
 use sylvia::cw_std::StdError;
 
@@ -27,6 +28,13 @@ pub mod tp {
 
         #[sv::msg(reply, reply_on=always)]
         pub fn one(&self, _ctx: ReplyCtx, _result: SubMsgResult, _x: u8) -> StdResult<Response> {
+            Ok(Response::new())
+        }
+
+        // payload parameters named like fields of the sub-message the builder fills in
+        #[sv::msg(reply, reply_on=error)]
+        pub fn nm(&self, _ctx: ReplyCtx, _error: String, id: u8, reply_on: u8) -> StdResult<Response> {
+            let _ = (id, reply_on);
             Ok(Response::new())
         }
 
